@@ -463,8 +463,8 @@ def run_history_machine(ctx, n_examples, steps):
 
         @rule(opt=st.sampled_from(sorted(opts)), lr=st.sampled_from([1e-2, 0.3, 3.0]), steps=st.integers(1, 2))
         def train_vi(self, opt, lr, steps):
-            if self.kind in ("mixture",):
-                return  # mixture sampling is not reparameterised
+            if self.kind in ("mixture", "block_neural_autoregressive_flow"):
+                return  # mixture sampling is not reparameterised; BNAF(invert=True) samples by bisection (no reverse-mode gradient)
             self.k += 1
             self.trace.append(("fit_to_variational_target", opt, lr, steps))
             target = lambda v: -0.5 * jnp.sum((v - 2.0) ** 2) * 4.0  # noqa: E731
